@@ -17,7 +17,6 @@ from cxx_ast import *
 
 KINDS = {"unsigned int": "CU32", "int": "CS32", "unsigned long": "CU64", "long": "CS64",
          "unsigned long long": "CU64", "long long": "CS64"}
-PRESERVING_TO_LONG = {"unsigned int", "int", "long", "long long"}
 
 
 def walk(n):
@@ -95,17 +94,29 @@ def coord_decl(vd, want_var):
     return KINDS[t], c, cmax
 
 
+RANGE = {"unsigned int": (0, 2 ** 32 - 1), "int": (-2 ** 31, 2 ** 31 - 1), "long": (-2 ** 63, 2 ** 63 - 1),
+         "long long": (-2 ** 63, 2 ** 63 - 1), "unsigned long": (0, 2 ** 64 - 1), "unsigned long long": (0, 2 ** 64 - 1)}
+
+
 def int_operand(n, kinds):
-    """operand of a comparison carried out in long: x / y / ps_size / literal, promoted value-preservingly"""
-    if ty(n) != "long":
-        raise TranslateError("a guard comparison is carried out in '%s', not in long" % ty(n))
+    """operand of a guard comparison: x / y / ps_size / literal.  The comparison is carried out in the type the operand
+    has after the usual arithmetic conversions; the translation to Z is only valid when that conversion preserves the
+    value (a literal: its value fits; a variable: the target range contains the source range)"""
+    tcmp = ty(n)
+    if tcmp not in RANGE:
+        raise TranslateError("a guard comparison is carried out in '%s'" % tcmp)
+    lo, hi = RANGE[tcmp]
     s = soft(n)
     if s.get("kind") == "IntegerLiteral":
-        return str(int(s["value"]))
+        v = int(s["value"])
+        if not lo <= v <= hi:
+            raise TranslateError("literal %d does not fit the comparison type %s" % (v, tcmp))
+        return str(v) if v >= 0 else "(%d)" % v
     if s.get("kind") == "DeclRefExpr":
         nm = s["referencedDecl"]["name"]
-        if ty(s) not in PRESERVING_TO_LONG:
-            raise TranslateError("%s of type %s is not promoted to long value-preservingly" % (nm, ty(s)))
+        ts = ty(s)
+        if ts not in RANGE or not (lo <= RANGE[ts][0] and RANGE[ts][1] <= hi):
+            raise TranslateError("%s of type %s is compared as %s: not a value-preserving conversion" % (nm, ts, tcmp))
         if nm in ("x", "y"):
             return nm
         if nm == "ps_size":
